@@ -57,7 +57,7 @@ def unchanged(ex, ctx, name, props):
                and not v.eq(entry.arr(k))]
     ex.prove('%s:%s:no-field-modified' % (props[0], name), props, not changed, {'changed': changed})
     for w in writes(ex):
-        ex.prove('%s:%s:no-pre-existing-container-modified[%s]' % (props[0], name, w[2]), props, ex.is_fresh(w[3]))
+        ex.prove('%s:%s:no-pre-existing-container-modified[%s]' % (props[0], name, w[2]), props, ex.is_fresh(w[3]), soft=True)
 
 
 # ---------------------------------------------------------------------------------------------
@@ -165,7 +165,7 @@ def F_hashable(v):
 def stored_copy_check(ex, n, stored, source):
     """C12 V2: the stored value is a deep copy made by this activation (or atomic)"""
     stored = L.simp(stored)
-    dc = [d for d in ex.deepcopies if d[0].eq(stored)]
+    dc = [d for d in ex.deepcopies if ex.same(d[0], stored)]
     if dc and not dc[0][2]:
         ex.prove('C12:%s:stored-value-is-an-independent-copy' % n, ['C12', 'C07'], True)
         ex.prove('C12:%s:copy-is-of-the-assigned-value' % n, ['C12', 'C07'], dc[0][1] == L.refof(source))
@@ -183,6 +183,8 @@ def spec_setitem(ex, ctx, outcome):
     ws = writes(ex)
     if outcome[0] != 'return':
         return
+    # index assignment is a statement: statements yield None (C07)
+    ex.prove('C07:%s:index-assignment-statement-yields-None' % n, ['C07'], outcome[1] == L.NoneV, {'watch': {'result': outcome[1]}})
     ex.prove('C14:%s:exactly-one-write' % n, ['C14', 'C07', 'C13'], len(ws) == 1, {'writes': [e[2] for e in ws]})
     if len(ws) != 1:
         return
@@ -223,7 +225,7 @@ def spec_setitem_with_op(ex, ctx, outcome):
                      z3.And(z3.Not(known_op), L.exc_is_sub(outcome[1], PE)))
     for p in ops_:
         rhs = L.simp(p[4])
-        dc = [d for d in ex.deepcopies if d[0].eq(rhs) and not d[2]]
+        dc = [d for d in ex.deepcopies if ex.same(d[0], rhs) and not d[2]]
         ex.prove('C12:%s:operand-is-an-independent-copy' % n, ['C12'],
                  True if dc else z3.Or(L.is_scalar(rhs), L.is_Fun(rhs), L.is_Slice(rhs)), {'watch': {'operand': rhs}})
         sym = {'+': '+=', '-': '-=', '*': '*=', '/': '/='}.get(p[2])
@@ -236,6 +238,8 @@ def spec_setitem_with_op(ex, ctx, outcome):
                  z3.And(z3.Implies(z3.And(L.is_List(c), idx), p[3] == h0.lelt(lr, j)),
                         z3.Implies(L.is_Dict(c), p[3] == h0.dval(dr, kc))))
     if outcome[0] == 'return':
+        ex.prove('C07:%s:compound-index-assignment-statement-yields-None' % n, ['C07'], outcome[1] == L.NoneV,
+                 {'watch': {'result': outcome[1]}})
         ex.prove('C07:%s:one-operator-application' % n, ['C07', 'C14'], len(ops_) == 1)
         ws = [w for w in writes(ex) if w[2] in ('setitem', 'store', 'setslice')]
         ex.prove('C14:%s:stores-the-result-back-once' % n, ['C14', 'C07'], len(ws) == 1)
@@ -254,6 +258,7 @@ def spec_delitem(ex, ctx, outcome):
     kc = key_norm(c, k)
     if outcome[0] != 'return':
         return
+    ex.prove('C07:%s:del-statement-yields-None' % n, ['C07'], outcome[1] == L.NoneV)
     ws = writes(ex)
     dr, lr = Val.dref(c), Val.lref(c)
     had = h0.dhas(dr, kc)
@@ -394,7 +399,8 @@ def _view_spec(kind):
                             z3.Implies(L.is_Dict(v), ex.heap.llen(Val.lref(r)) == ctx['entry'].dlen(dr))))
             if kind == 'keys':
                 ex.prove('C14:%s:entries-are-the-keys-in-insertion-order' % n, ['C14', 'C07'],
-                         z3.Implies(L.is_Dict(v), ex.heap.lelts(Val.lref(r)) == ctx['entry'].arr('DKEY')[dr]))
+                         z3.Implies(z3.And(L.is_Dict(v), K >= 0, K < ctx['entry'].dlen(dr)),
+                                    ex.heap.lelt(Val.lref(r), K) == ctx['entry'].dkey(dr, K)))
     return spec
 
 
